@@ -12,7 +12,7 @@
    The bound 192 on the length of ms is an artefact of the fuel of dep_closure in the model, not of the library.
    The earlier kernel-evaluated samples (C14_partial_...) are kept. *)
 From Coq Require Import String List NArith.
-From ABNF Require Import Base Engine Registry GenTypes Loader GenBundled Bundled TablesAll L_C14 LoadOrder LoadBundled LoadSharp.
+From ABNF Require Import Base Engine Registry GenTypes Loader GenBundled Bundled TablesAll L_C14 LoadOrder LoadBundled LoadSharp LoadBehave LoadBundled2.
 Import ListNotations.
 
 Theorem C14_partial_alone_vs_all : alone_vs_all = true.
@@ -55,3 +55,21 @@ Print Assumptions C14_two_orders_agree.
 Theorem C14_unguarded_flag_loop_refuted : sharp_check = true.
 Proof. exact unguarded_flag_loop_refuted. Qed.
 Print Assumptions C14_unguarded_flag_loop_refuted.
+
+(* ---- with the library's own reader class, and from configuration to BEHAVIOUR ------------------------------------- *)
+Theorem C14_with_reader_class : forall ms, (forall m, In m ms -> In m module_names) -> length ms <= 192 ->
+  exists R, r_order ms = Some R /\ same_class R R_all 0%N = true /\ same_class R R_all 1%N = true /\
+            forall m, In m (dep_closure 400 ms []) -> same_module R R_all m = true.
+Proof. exact C14_all_orders'. Qed.
+Print Assumptions C14_with_reader_class.
+
+(* for every import list, every module that got imported, every class of it and every rule name: the rule exists in both
+   registries or in neither, and the match-listing API, parse and parse_all give identical results (trees included) for
+   every hash-order oracle, fuel, string and offset; likewise for the core rules and the library's ABNF reader rules *)
+Theorem C14_parse_results : forall ms, (forall m, In m ms -> In m module_names) -> length ms <= 192 ->
+  exists R, r_order ms = Some R /\
+    (forall m g c name, In m (dep_closure 400 ms []) -> In g bundled -> gmod g = m ->
+        cls_of bundled (gmod g) (gcls g) = Some c -> beh_eq R_all R c name) /\
+    (forall name, beh_eq R_all R 0%N name) /\ (forall name, beh_eq R_all R 1%N name).
+Proof. exact C14_behaviour. Qed.
+Print Assumptions C14_parse_results.
